@@ -366,3 +366,32 @@ def run(ctx):
                               f"KeyDeserializer::{b.name} hands {carrier} to {t['call']['name']}: the nested deserializer must be the KeyDeserializer itself, otherwise the string-to-number / bool key coercion is lost below an optional or newtype key",
                               instance=f"KeyDeserializer::{b.name}: {t['call']['name']}(KeyDeserializer)")
     ctx.floor("R13.5", "nested-deserializer hand-offs of the Any key deserializer", nk, 3)
+
+
+_run_c13 = run
+
+
+def run(ctx):
+    _run_c13(ctx)
+    # R13.7 per-call state parked in a thread-local is put back on every exit
+    from .. import tls as _tls
+    # R13.8 serializer and deserializer of the dynamic value answer serde's is_human_readable alike (a uuid or an address stored
+    # in its compact form cannot be read back by a deserializer that expects text, nor re-serialized to JSON as text)
+    co_ = ctx.F.crate("conjure_object")
+    answers = {}
+    for i_ in co_.impls:
+        if i_.get("trait") in ("serde_core::ser::Serializer", "serde_core::de::Deserializer") and "::any::" in tystr(i_.get("self_ty") or {}):
+            mid_ = (i_.get("items") or {}).get("is_human_readable")
+            b_ = co_.body(mid_) if mid_ else None
+            ans_ = True
+            if b_ is not None:
+                ans_ = "?"
+                for _, _, s_ in b_.stmts():
+                    if place_local(s_["d"]) == 0 and "use" in s_["r"] and isinstance(s_["r"]["use"].get("c"), dict) and "bool" in s_["r"]["use"]["c"]:
+                        ans_ = s_["r"]["use"]["c"]["bool"]
+            answers[tystr(i_["self_ty"])] = ans_
+    ctx.check(len(set(answers.values())) <= 1, "R13.8", "conjure-object/src/any", "any|is_human_readable|agree",
+              f"the serializers / deserializers of `any` disagree on is_human_readable: {answers} — a value whose encoding depends on it (uuid, IpAddr) is stored in one form and read back / re-serialized in the other",
+              instance=f"{len(answers)} Serializer / Deserializer impls of `any` answer is_human_readable alike ({sorted(set(map(str, answers.values())))})")
+    ctx.floor("R13.8", "Serializer / Deserializer impls of any", len(answers), 2)
+    _tls.check(ctx, ctx.F.crate("conjure_object"), "R13.7", "`any` must carry every document whatever was (unsuccessfully) read before on the same thread")
